@@ -182,6 +182,60 @@ def apply_renames(tree, renames):
 
 
 # --------------------------------------------------------------------------
+# N1b renamed module globals (the hand-over variables of the pool workers)
+# --------------------------------------------------------------------------
+def _global_decls(tree):
+    """{function name: [names in its global statements, in order]}"""
+    out = {}
+    for fn in ast.walk(tree):
+        if isinstance(fn, (ast.FunctionDef, ast.AsyncFunctionDef)):
+            names = []
+            for n in ast.walk(fn):
+                if isinstance(n, ast.Global):
+                    names.extend(n.names)
+            if names:
+                out[fn.name] = names
+    return out
+
+
+def rename_globals(ref_tree, cur_tree):
+    """A consistent renaming of module globals is behaviour preserving as
+    long as it is applied to every occurrence and clashes with nothing;
+    the pairing is read off the global statements of same-named functions
+    (position by position)."""
+    rd, cd = _global_decls(ref_tree), _global_decls(cur_tree)
+    mapping = {}
+    for fname, rn in rd.items():
+        cn = cd.get(fname)
+        if cn is None or len(cn) != len(rn):
+            continue
+        for r, c in zip(rn, cn):
+            if r != c:
+                if mapping.setdefault(c, r) != r:
+                    return {}
+    if not mapping or len(set(mapping.values())) != len(mapping):
+        return {}
+    allnames = {n.id for n in ast.walk(cur_tree) if isinstance(n, ast.Name)}
+    allstr = {n.value for n in ast.walk(cur_tree)
+              if isinstance(n, ast.Constant) and isinstance(n.value, str)}
+    for c, r in mapping.items():
+        if r in allnames or r in allstr:
+            return {}   # the old name is still in use for something
+    for n in ast.walk(cur_tree):
+        if isinstance(n, ast.Name) and n.id in mapping:
+            n.id = mapping[n.id]
+        elif isinstance(n, ast.Global):
+            n.names = [mapping.get(x, x) for x in n.names]
+        elif isinstance(n, ast.Subscript) and isinstance(
+                n.value, ast.Call) and isinstance(
+                    n.value.func, ast.Name) and \
+                n.value.func.id == 'globals' and isinstance(
+                    n.slice, ast.Constant) and n.slice.value in mapping:
+            n.slice = ast.Constant(value=mapping[n.slice.value])
+    return mapping
+
+
+# --------------------------------------------------------------------------
 # N2 inlining of new helpers
 # --------------------------------------------------------------------------
 class NotInlinable(Exception):
@@ -201,13 +255,14 @@ def _terminates(stmts):
 
 
 def _has_return(stmts):
-    for st in stmts:
-        for n in ast.walk(st):
-            if isinstance(n, ast.Return):
-                return True
-            if isinstance(n, (ast.FunctionDef, ast.Lambda)):
-                break
-    return False
+    def walk(n):
+        if isinstance(n, ast.Return):
+            return True
+        if isinstance(n, (ast.FunctionDef, ast.AsyncFunctionDef,
+                          ast.Lambda)):
+            return False
+        return any(walk(c) for c in ast.iter_child_nodes(n))
+    return any(walk(st) for st in stmts)
 
 
 def tail_form(stmts, emit):
@@ -257,13 +312,48 @@ def _names_all(node):
 class _Subst(ast.NodeTransformer):
     def __init__(self, env):
         self.env = env
+        self.shadow = []
 
     def visit_Name(self, n):
+        if any(n.id in s for s in self.shadow):
+            return n
         if n.id in self.env and isinstance(n.ctx, ast.Load):
             return copy.deepcopy(self.env[n.id])
         if n.id in self.env and isinstance(self.env[n.id], ast.Name):
             n.id = self.env[n.id].id
         return n
+
+    def _scoped(self, n, names):
+        self.shadow.append(names)
+        self.generic_visit(n)
+        self.shadow.pop()
+        return n
+
+    def visit_FunctionDef(self, n):
+        a = n.args
+        names = {x.arg for x in a.posonlyargs + a.args + a.kwonlyargs}
+        if a.vararg:
+            names.add(a.vararg.arg)
+        if a.kwarg:
+            names.add(a.kwarg.arg)
+        if n.name in self.env and isinstance(self.env[n.name], ast.Name):
+            n.name = self.env[n.name].id
+        return self._scoped(n, names)
+
+    def visit_Lambda(self, n):
+        a = n.args
+        return self._scoped(n, {x.arg for x in a.posonlyargs + a.args +
+                                a.kwonlyargs})
+
+    def _comp(self, n):
+        names = set()
+        for g in n.generators:
+            names |= {m.id for m in ast.walk(g.target)
+                      if isinstance(m, ast.Name)}
+        return self._scoped(n, names)
+
+    visit_ListComp = visit_SetComp = visit_GeneratorExp = visit_DictComp = \
+        _comp
 
     def visit_Call(self, n):
         self.generic_visit(n)
@@ -320,18 +410,27 @@ class Helper:
             if isinstance(n, (ast.Yield, ast.YieldFrom, ast.Await,
                               ast.Global, ast.Nonlocal)):
                 raise NotInlinable('generator/global')
-            if n is not node and isinstance(
-                    n, (ast.FunctionDef, ast.AsyncFunctionDef)):
-                raise NotInlinable('nested def')
+            if n is not node and isinstance(n, ast.AsyncFunctionDef):
+                raise NotInlinable('nested async def')
             if isinstance(n, ast.Call) and self._is_self_call(n):
                 raise NotInlinable('recursive')
         self.params = [x.arg for x in a.args]
         self.defaults = dict(zip(self.params[len(self.params) -
                                              len(a.defaults):], a.defaults))
         self.vararg = a.vararg.arg if a.vararg else None
-        self.assigned = {n.id for n in ast.walk(node)
-                         if isinstance(n, ast.Name) and isinstance(
-                             n.ctx, (ast.Store, ast.Del))}
+        self.assigned = set()
+
+        def own(n):
+            for c in ast.iter_child_nodes(n):
+                if isinstance(c, (ast.FunctionDef, ast.Lambda)):
+                    if isinstance(c, ast.FunctionDef):
+                        self.assigned.add(c.name)
+                    continue
+                if isinstance(c, ast.Name) and isinstance(
+                        c.ctx, (ast.Store, ast.Del)):
+                    self.assigned.add(c.id)
+                own(c)
+        own(node)
 
     def _is_self_call(self, call):
         return self.matches(call)
@@ -477,6 +576,37 @@ class _Inliner:
                 for a in list(call.args) + [k.value for k in call.keywords]
                 for n in ast.walk(a)):
             return self.splice(st, call, kind, names)
+        # one call below the top of a simple statement: evaluate it first
+        if h.as_expression() is None and isinstance(
+                st, (ast.Expr, ast.Assign, ast.AugAssign, ast.Return)) and \
+                st.value is not None:
+            sites = [n for n in ast.walk(st.value)
+                     if isinstance(n, ast.Call) and h.matches(n)]
+            if len(sites) == 1 and not any(
+                    isinstance(n, (ast.Lambda, ast.ListComp, ast.SetComp,
+                                   ast.DictComp, ast.GeneratorExp,
+                                   ast.IfExp, ast.BoolOp))
+                    and any(m is sites[0] for m in ast.walk(n))
+                    for n in ast.walk(st.value)):
+                tmp = '_ret_%s' % h.name.strip('_')
+                k = 0
+                while tmp in names:
+                    k += 1
+                    tmp = '_ret_%s%d' % (h.name.strip('_'), k)
+                names.add(tmp)
+                first = ast.copy_location(ast.Assign(
+                    targets=[ast.Name(id=tmp, ctx=ast.Store())],
+                    value=sites[0]), st)
+
+                class R(ast.NodeTransformer):
+                    def visit_Call(self, n):
+                        if n is sites[0]:
+                            return ast.Name(id=tmp, ctx=ast.Load())
+                        self.generic_visit(n)
+                        return n
+                st.value = R().visit(st.value)
+                return self.splice(first, first.value, 'assign',
+                                   names) + [st]
         # nested blocks
         for f in ('body', 'orelse', 'finalbody'):
             v = getattr(st, f, None)
@@ -621,6 +751,9 @@ def normalise(ref_tree, cur_tree):
         rec['renamed_functions'] = {
             ('%s.%s' % (sc, n) if sc else n): o
             for sc, mp in ren.items() for n, o in mp.items()}
+    gl = rename_globals(ref_tree, cur_tree)
+    if gl:
+        rec['renamed_globals'] = gl
     inl = inline_new_helpers(ref_tree, cur_tree, ren)
     if inl:
         rec['inlined_helpers'] = inl
